@@ -190,7 +190,7 @@ pub fn gen_value(rng: &mut Rng, depth: u32) -> serde_json::Value {
 /// Typed payloads and footers, and histories in which seals that must be refused (an encoder that
 /// fails after producing output) and unseals that must fail are mixed, on one thread and one key
 /// object, with seals that must round-trip.
-fn typed_histories<B: Backend>(opts: &Opts, rep: &mut Report) {
+fn typed_histories<B: Backend + 'static>(opts: &Opts, rep: &mut Report) {
     use paseto_json::Json;
     use serde_json::Value;
 
@@ -204,6 +204,7 @@ fn typed_histories<B: Backend>(opts: &Opts, rep: &mut Report) {
         // one key object per shard for the whole history
         let mut krng = Rng::derive(opts.seed, &stream, opts.shard as u64);
         let kp = KeyPair::<B>::gen_for(p, &mut krng);
+        let mut noise = crate::noise::Noise::<B>::new(opts.seed ^ 1);
         let mut refused_before = 0u32; // refused operations since the last checked seal
         for step in 0..n as u64 {
             if step % opts.nshards as u64 != opts.shard as u64 {
@@ -258,6 +259,8 @@ fn typed_histories<B: Backend>(opts: &Opts, rep: &mut Report) {
                         }
                     }
                     let _ = guard(|| kp.open("v4.local.!!!", &aad));
+                    // and failing calls of other kinds (invalid keys, corrupted wrapped keys, forged signatures ...)
+                    refused_before += noise.burst(&mut rng).len() as u32;
                     refused_before += 1;
                     rep.count("history.failed-unseals");
                     rep.case(&class, fnv_parts(&[stream.as_bytes(), &step.to_le_bytes()]), true);
@@ -401,7 +404,7 @@ fn related_keys<B: Backend>(opts: &Opts, rep: &mut Report) {
     }
 }
 
-fn backend<B: Backend>(opts: &Opts, rep: &mut Report) {
+fn backend<B: Backend + 'static>(opts: &Opts, rep: &mut Report) {
     let lens = payload_lengths(opts.thorough());
     let foots = footers();
     let mut idx: u64 = 0;
